@@ -303,7 +303,12 @@ func (c *cmafIngester) start(ctx context.Context) {
 
 	refRep := c.asset.refRep
 	lastNr := findLastSegNr(c.cfg, c.asset, nowMS, refRep)
-	nextSegNr := lastNr + 1
+	if lastNr < -1 {
+		// No segment is complete yet (lastNr() of an empty timeline is -2): start with the first one.
+		lastNr = -1
+	}
+	// findLastSegNr counts from 0; segment URLs and calcSegmentAvailabilityTime count from the start number.
+	nextSegNr := lastNr + 1 + c.cfg.getStartNr()
 	lastSegNrToSend := -1
 
 	if c.nrSegsToSend != nil {
